@@ -53,6 +53,10 @@ class ColumnQuery(Query):
     def is_leaf(self):
         return True
 
+    def estimate_size(self, ixreader):
+        # (any document may have a value that meets the condition)
+        return ixreader.doc_count()
+
     def matcher(self, searcher, context=None):
         fieldname = self.fieldname
         condition = self.condition
